@@ -24,7 +24,7 @@ import (
 
 func TestMain(m *testing.M) { drv.Main(m) }
 
-const rule = "state machine on the real application: MsgCreateGauge (perpetual / N-epoch, by-duration on a lockable duration, reward coins in uosmo and in a denom valued through a protorev-registered pool, start time past/now/future), MsgAddToGauge, lock / extend-lock / begin-unlock (whole or partial) / reward-receiver changes between epochs, minimum-value parameter changes, and epoch ends driven through the real x/epochs BeginBlocker (so the incentives hook runs in its hook context); oracle per epoch computed from state read before the epoch block: every qualifying lock's receiver gets floor(remaining x lockAmt / (lockSum x remainingEpochs)) per coin unless below the minimum value (own denom: amount < min; other denom: compared through the pool's own CalcOutAmtGivenIn; the <=100-unit single-coin anti-spam rule as coded), gauge distributed coins grow by the same total, sum distributed <= deposited, module balance >= undistributed remainder of unfinished gauges, upcoming -> active at the first epoch end with blockTime >= start, non-perpetual gauges finish after exactly N paying epochs and then neither pay nor accept top-ups; non-trivial = >= 2 qualifying locks with different receivers, >= 3 epochs and a lock change between epochs; distinct by history hash"
+const rule = "state machine on the real application: MsgCreateGauge (perpetual / N-epoch, by-duration on a lockable duration, reward coins in uosmo and in a denom valued through a protorev-registered pool, start time past/now/future), MsgAddToGauge, lock / extend-lock / begin-unlock (whole or partial) / reward-receiver changes between epochs, minimum-value parameter changes, and epoch ends driven through the real x/epochs BeginBlocker (so the incentives hook runs in its hook context); oracle per epoch computed from state read before the epoch block (reward receivers from the harness's own record of accepted redirect messages, inherited by a split-off lock): every qualifying lock's receiver gets floor(remaining x lockAmt / (lockSum x remainingEpochs)) per coin unless below the minimum value (own denom: amount < min; other denom: compared through the pool's own CalcOutAmtGivenIn; the <=100-unit single-coin anti-spam rule as coded), gauge distributed coins grow by the same total, sum distributed <= deposited, module balance >= undistributed remainder of unfinished gauges, upcoming -> active at the first epoch end with blockTime >= start, non-perpetual gauges finish after exactly N paying epochs and then neither pay nor accept top-ups; non-trivial = >= 2 qualifying locks with different receivers, >= 3 epochs and a lock change between epochs; distinct by history hash"
 
 const lockDenom = "lptoken"
 
